@@ -75,3 +75,27 @@ def iteration_budget(hooks, limit=400):
             raise IterationBudgetExceeded(f"more than {limit} iterations")
     hooks.wrap(SamplerCore, "execute_iteration", before=before)
     return n
+
+
+def pin_limit(hooks, pin, min_beta=0.3):
+    """Injected reweighter decision: the first time (late in a run) the ESS-limited upper temperature comes out as exactly
+    1.0, it is replaced by `pin` in (1 - 2e-4, 1) - a conservative, valid limit that the real code then carries through its
+    own decision, weight, logZ and finalisation paths.  Ordinary runs step over this band (probability ~1e-4 per run), so
+    nothing that happens to a temperature strictly between 1 - BETA_TOLERANCE and 1 is otherwise ever observed.  The
+    injection is keyed on the iteration number, so a second Reweighter working on a copy of the same state (differential
+    oracle) receives the same injection."""
+    from tempest.steps.reweight import Reweighter
+    st = {"iter": None, "n": 0}
+
+    def after(ctx, r, self, beta_current, *a, **k):
+        if pin is None or float(r) != 1.0 or float(beta_current) < min_beta:
+            return None
+        it = int(self.state.get_current("iter"))
+        if st["iter"] is None:
+            st["iter"] = it
+        if it != st["iter"]:
+            return None
+        st["n"] += 1
+        return float(pin)
+    hooks.wrap(Reweighter, "_find_beta_upper_limit", after=after, label="pin_limit")
+    return st
